@@ -40,6 +40,10 @@ def stepsOfJson (w : World) : List Json → Except String (List Step)
     let w' := match st with | .world x => x | _ => w
     pure (st :: (← stepsOfJson w' t))
 
+def formToString : Form → String
+  | .literal => "literal" | .npScalar => "np_scalar" | .ndarray => "ndarray"
+  | .tensor => "tensor" | .variable => "variable"
+
 def outcomeToJson : KerasOutcome → Json
   | .ok => Json.mkObj [("kind", Json.str "ok")]
   | .serializeRaises => Json.mkObj [("kind", Json.str "serialize_raises")]
@@ -132,7 +136,10 @@ def handle (j : Json) : Except String Json := do
       match p with
       | .arr #[k, f] => pure (← k.getStr?, ← formOfString (← f.getStr?))
       | _ => throw "bad form pair"
-    pure (outcomeToJson (kerasOutcome (configForms c stored)))
+    -- the Keras-pair outcome plus the form of every emitted configuration value
+    let cf := configForms c stored
+    pure ((outcomeToJson (kerasOutcome cf)).setObjVal! "config_forms"
+      (Json.arr (cf.map fun p => Json.arr #[Json.str p.1, Json.str (formToString p.2)]).toArray))
   | _ => throw s!"unknown op {op}"
 
 def main : IO Unit := lineLoop handle
